@@ -538,7 +538,7 @@ func TestTypedNew(t *testing.T) {
 	bases := []struct{ name, lit, lit2 string }{{"Int", "3", "0"}, {"Str", "\"q\"", "\"\""}, {"Float", "2.5", "0.0"}, {"Arr", "[1]", "[]"}}
 	k := 0
 	for _, b := range bases {
-		prelude := fmt.Sprintf("T := %s.bear({x: 1, tag: m{'t}}); kid := T.bear({y: 2}); grand := kid.bear({z: 3}); cousin := %s.bear({w: 4}); inst := T.new(%s)", b.name, b.name, b.lit)
+		prelude := fmt.Sprintf("G := %s.bear({_missing: m{|n| [n, \\0[2:]]}}); T := G.bear({x: 1, tag: m{'t}}); kid := T.bear({y: 2}); grand := kid.bear({z: 3}); cousin := %s.bear({w: 4}); inst := T.new(%s)", b.name, b.name, b.lit)
 		for _, v := range []string{b.lit, b.lit2, "inst", "kid", "grand", "cousin", "kid.new(" + b.lit + ")", "cousin.new(" + b.lit + ")"} {
 			k++
 			if !vt.Mine(k) {
@@ -564,7 +564,11 @@ func TestTypedNew(t *testing.T) {
 				{"new-which", "made.which('w)", Expect{Same: sp("nil")}},
 				{"new-index", "made['y]", Expect{Same: sp("nil")}},
 				{"new-call", "made.x", Expect{Inspect: sp("1")}},
-				{"new-call", "made.y", Expect{ErrKind: sp("NoPropErr")}},
+				// G (T's parent, a user prototype between the value and its built-in type) defines _missing
+				{"new-call", "made.y", Expect{Inspect: sp(`["y", []]`)}},
+				{"new-call", "made.nope(5, 6)", Expect{Inspect: sp(`["nope", [5, 6]]`)}},
+				{"new-call", "cousin.new(" + b.lit + ").y", Expect{ErrKind: sp("NoPropErr")}},
+				{"new-which", "made.which('_missing)", Expect{Same: sp("G")}},
 				// kindOf? is defined through == (`self == other || .ancestors.has?(other)`), and == of prototypes of scalar types
 				// follows their zero-value design (all children of Float are == 0.0): only membership of real ancestors is asserted
 				{"new-kindof", "[made.kindOf?(T), made.kindOf?(" + b.name + "), made.kindOf?(Obj), kid.kindOf?(T), grand.kindOf?(kid), T.kindOf?(T)]", Expect{Inspect: sp("[true, true, true, true, true, true]")}},
@@ -579,7 +583,7 @@ func TestTypedNew(t *testing.T) {
 			}
 		}
 	}
-	vt.Exhaustive("4 base types (Map has no typed constructor) x 8 constructor arguments x 10 lookups on T.new(v)")
+	vt.Exhaustive("4 base types (Map has no typed constructor) x 8 constructor arguments x 13 lookups on T.new(v), with _missing on T's user-defined parent")
 }
 
 func TestReplay(t *testing.T) {
